@@ -108,21 +108,51 @@ func TestVerifC17Lock(t *testing.T) {
 			time.Sleep(5 * time.Millisecond)
 			if cur := ops.Load(); cur != last {
 				last, lastChange = cur, time.Now()
-			} else if time.Since(lastChange) > 20*time.Second {
+			} else if time.Since(lastChange) > c17NoProgress {
 				stuck = true
 				break
 			}
 		}
 		if stuck {
-			buf := make([]byte, 1<<20)
-			buf = buf[:runtime.Stack(buf, true)]
-			dump := string(buf)
-			inLock := strings.Contains(dump, "sync.(*RWMutex).RLock") || strings.Contains(dump, "sync.(*RWMutex).Lock") || strings.Contains(dump, "sync.(*Mutex).Lock")
-			if inLock && strings.Contains(dump, "corerad/internal/plugin.") {
-				r.Violation(id, "scrape-blocked-on-lock", fmt.Sprintf("no scrape, request or Prepare completed for 20 s after %d operations; goroutines are parked in a lock inside internal/plugin (deadlock)", last),
-					map[string]any{"mode(0=never prepared,1=failing expansion,2=loopback)": mode, "goroutines": vlib.TrimStack(c17LockFrames(dump))})
-			} else {
-				r.Inconclusive(id, "no progress for 20 s but no goroutine is parked in a plugin lock")
+			// No progress for a long time: a deadlock, or a machine so loaded that
+			// this process is not being scheduled.  The goroutine dump tells them
+			// apart: in a deadlock every goroutine that is inside internal/plugin is
+			// *parked* on a lock and stays so; a goroutine that is runnable or
+			// running there only needs the CPU.  Two dumps ten seconds apart, no
+			// operation completed in between, nobody runnable in either.
+			verdict := func() (parked, runnable int, frames string) {
+				buf := make([]byte, 4<<20)
+				buf = buf[:runtime.Stack(buf, true)]
+				dump := string(buf)
+				for _, g := range strings.Split(dump, "\n\n") {
+					if !strings.Contains(g, "corerad/internal/plugin.") {
+						continue
+					}
+					head := g
+					if i := strings.IndexByte(g, '\n'); i >= 0 {
+						head = g[:i]
+					}
+					switch {
+					case strings.Contains(head, "[sync.RWMutex.RLock") || strings.Contains(head, "[sync.RWMutex.Lock") || strings.Contains(head, "[sync.Mutex.Lock") || strings.Contains(head, "[semacquire"):
+						parked++
+					default:
+						runnable++
+					}
+				}
+				return parked, runnable, c17LockFrames(dump)
+			}
+			p1, r1, _ := verdict()
+			before := ops.Load()
+			time.Sleep(10 * time.Second)
+			p2, r2, frames := verdict()
+			switch {
+			case ops.Load() != before:
+				r.Inconclusive(id, fmt.Sprintf("no operation completed for %v, then progress resumed: the machine is overloaded", c17NoProgress))
+			case p1 > 0 && p2 > 0 && r1 == 0 && r2 == 0:
+				r.Violation(id, "scrape-blocked-on-lock", fmt.Sprintf("no scrape, request or Prepare completed for %v after %d operations; every goroutine inside internal/plugin is parked on a lock, in two dumps 10 s apart (deadlock)", c17NoProgress, last),
+					map[string]any{"mode(0=never prepared,1=failing expansion,2=loopback)": mode, "goroutines": vlib.TrimStack(frames)})
+			default:
+				r.Inconclusive(id, fmt.Sprintf("no progress for %v, but goroutines inside internal/plugin are runnable (%d, then %d) rather than parked (%d, then %d): starved of CPU, not deadlocked", c17NoProgress, r1, r2, p1, p2))
 			}
 			// the stuck goroutines cannot be recovered: leave them and end this shard's run
 			r.Count("operations_completed", int(last))
@@ -133,6 +163,10 @@ func TestVerifC17Lock(t *testing.T) {
 		r.Count("operations_completed", int(ops.Load()))
 	}
 }
+
+// c17NoProgress is how long no operation may complete before the goroutine
+// dumps are consulted.
+const c17NoProgress = 30 * time.Second
 
 func c17LockFrames(dump string) string {
 	var out []string
